@@ -44,12 +44,17 @@ def h_single(B, cls="EOF", n=4, p=2, k=2, flags=None, weights=False, layout="2d"
     B.eq("transform(X_fit)==scores()", tr, sc)
 
 
-def h_cross(B, cls="CPCCA", n=4, p=2, q=2, k=2, alpha=1.0, use_pca=False, flags=None, rot=None, normalized=False, cplx=False):
+def h_cross(B, cls="CPCCA", n=4, p=2, q=2, k=2, alpha=1.0, use_pca=False, flags=None, rot=None, normalized=False, cplx=False, weights=False):
     flags = dict(flags or {})
     X = da2d(B, "x", n, p, cplx, feat="x")
     Y = da2d(B, "y", n, q, cplx, feat="y")
     model = M.cross(cls, n_modes=k, alpha=alpha, use_pca=use_pca, n_pca_modes="all", **flags)
-    model.fit(X, Y, "time")
+    if weights:
+        wx = xr.DataArray(B.array((p,), "wx", positive=True), dims=("x",), coords={"x": X["x"].values})
+        wy = xr.DataArray(B.array((q,), "wy", positive=True), dims=("y",), coords={"y": Y["y"].values})
+        model.fit(X, Y, "time", weights_X=wx, weights_Y=wy)
+    else:
+        model.fit(X, Y, "time")
     if rot:
         model = M.rotate_cross(model, **rot)
     B.covers(f"{type(model).__name__}.fit", f"{type(model).__name__}.transform")
@@ -59,6 +64,13 @@ def h_cross(B, cls="CPCCA", n=4, p=2, q=2, k=2, alpha=1.0, use_pca=False, flags=
     sx, sy = model.scores(normalized=normalized)
     B.eq("transform(X)==scores1", tr[0], sx)
     B.eq("transform(Y)==scores2", tr[1], sy)
+    # one field at a time (a single DataArray comes back)
+    tx = B.completes("transform(X=X_fit) alone runs", lambda: model.transform(X=X, normalized=normalized))
+    if tx is not None:
+        B.eq("transform(X alone)==scores1", tx, sx)
+    ty = B.completes("transform(Y=Y_fit) alone runs", lambda: model.transform(Y=Y, normalized=normalized))
+    if ty is not None:
+        B.eq("transform(Y alone)==scores2", ty, sy)
 
 
 def h_multi(B, n=4, ps=(2, 2), k=2):
@@ -102,7 +114,8 @@ def configs(tier):
     for cls in ("EOF", "ComplexEOF"):
         for power in (1, 2):
             add("h_single", f"{cls}Rotator|power{power}", cls=cls, n=4, p=3, k=2, rot={"n_modes": 2, "power": power})
-            if tier == "thorough":
+            if tier == "thorough" or (cls == "EOF" and power == 1):
+                # three rotated modes: all six re-orderings after rotation are paths (rare ones reached through the witness corpus)
                 add("h_single", f"{cls}Rotator|power{power}|k3", cls=cls, n=5, p=3, k=3, rot={"n_modes": 3, "power": power})
         add("h_single", f"{cls}Rotator|power1|normalized", cls=cls, n=4, p=3, k=2, rot={"n_modes": 2, "power": 1}, normalized=True)
     # cross-set family
@@ -119,6 +132,8 @@ def configs(tier):
     if tier == "thorough":
         add("h_cross", "ComplexCPCCA|alpha=0.5", cls="ComplexCPCCA", n=4, p=2, q=2, k=2, alpha=0.5, use_pca=False, cplx=True)
     add("h_cross", "ComplexMCA", cls="ComplexMCA", n=4, p=2, q=2, k=2, use_pca=False, cplx=True)
+    add("h_cross", "ComplexMCA|pca=1", cls="ComplexMCA", n=4, p=2, q=2, k=2, use_pca=True, cplx=True)
+    add("h_cross", "CPCCA|alpha=0.5|weights|standardize", cls="CPCCA", n=4, p=2, q=2, k=2, alpha=0.5, use_pca=False, weights=True, flags={"standardize": True})
     # cross-set rotators
     for alpha in alphas:
         for power in (1, 2):
